@@ -227,3 +227,39 @@ visit_function_def = Contract(
 )
 visit_function_def.opaque = {"emit_arg": {"ret": ("obj", "ast.arg")}, "get_value": {"ret": "obj"}}
 CONTRACTS.append(visit_function_def)
+
+# ------------------------------------------------------------------------------------------- sync_property (C14: the wrap template)
+_SPR_OPAQUE = {
+    "strip_split": {"ret": "obj"}, "list": {"ret": "obj"}, "annotate_ancestry": {"ret": "obj"}, "find_in_ast": {"ret": ("obj", "ast.AnnAssign")},
+    "to_code": {"ret": "str"}, "ast.parse": {"ret": ("obj", "ast.Module")}, "RewriteAtQuery": {"ret": ("obj", "RewriteAtQuery")},
+}
+_WRAPS = {"opt": "Optional[{output_param}]", "union": "Optional[Union[{output_param}, str]]"}
+
+
+def _spr_case(name, wrap):
+    return Case(name, {"input_eval": ("lit", False), "input_param": "str", "input_ast": ("obj", "ast.Module"), "input_filename": "str",
+                       "output_param": "str", "output_param_wrap": None if wrap is None else ("lit", wrap), "output_ast": ("obj", "ast.Module")})
+
+
+sync_property = Contract(
+    "doctrans.sync_properties:sync_property",
+    properties=["C14"],
+    note="non-eval mode; lookup, rendering, parsing and the rewriter are opaque and logged; two wrap templates and none",
+    cases=[_spr_case("wrap=None", None)] + [_spr_case("wrap=" + k, v) for k, v in _WRAPS.items()],
+    ensures=[
+        Clause("SY-wrap-opt", "g_ann is None or log_ast_parse_n == 1 and log_ast_parse_args[0][0] == 'Optional[' + log_to_code_results[0] + ']' "
+                              "and log_to_code_args[0][0] is g_ann", when=["wrap=opt"],
+               note="C14: with a wrap template the copied annotation is ALWAYS the template applied to the input's annotation - whatever that annotation looks like"),
+        Clause("SY-wrap-union", "g_ann is None or log_ast_parse_n == 1 and log_ast_parse_args[0][0] == 'Optional[Union[' + log_to_code_results[0] + ', str]]'", when=["wrap=union"]),
+        Clause("SY-annotation-set", "g_ann is None or (log_setattr_n == 1 and log_setattr_args[0][0] is log_find_in_ast_results[0] and "
+                                    "log_setattr_args[0][1] == 'annotation' and log_setattr_args[0][2] is log_ast_parse_results[0].body[0].value)",
+               when=["wrap=opt", "wrap=union"], note="the parsed, wrapped expression becomes the annotation of the node that is copied"),
+        Clause("SY-nowrap", "log_ast_parse_n == 0 and log_to_code_n == 0", when=["wrap=None"], note="without a template the node is copied as it is"),
+        Clause("SY-replacement", "log_RewriteAtQuery_kwargs[0]['replacement_node'] is log_find_in_ast_results[0]", note="what is written into the output is the node found in the input"),
+    ],
+    ghosts={"assert replacement_node is not None": [("g_ann", "replacement_node.annotation")]},
+    raises={"AssertionError": True, "NotImplementedError": True},
+    canaries=["log_ast_parse_n == 0"],
+)
+sync_property.opaque = _SPR_OPAQUE
+CONTRACTS.append(sync_property)
